@@ -184,6 +184,16 @@ func genC14Conn(t *rapid.T, w cfggen.World) c14Conn {
 			h := model.Header{Version: 0xc0, Type: rapid.SampledFrom([]byte{1, 2, 3}).Draw(t, "hdr_type"), Seq: 1, Session: sess,
 				Length: rapid.SampledFrom([]uint32{0, 1, 4, 5, 8, 9, 65536, 65537, 0xffffffff}).Draw(t, "length")}
 			tail := rapid.SliceOfN(rapid.Byte(), 0, 12).Draw(t, "tail")
+			if (h.Length == 65536 || h.Length == 9) && rapid.Bool().Draw(t, "whole_body_present") {
+				// the announced body is all there (at 65536 octets: the largest packet there is), obfuscated
+				// or not, whatever it decodes to
+				h.Flags = rapid.SampledFrom([]byte{0, 0, 1, 4}).Draw(t, "full_flags")
+				fill := rapid.Byte().Draw(t, "full_fill")
+				tail = make([]byte, h.Length)
+				for k := range tail {
+					tail[k] = fill + byte(k%7)
+				}
+			}
 			cc.Chunks = append(cc.Chunks, c14Chunk{Wire: append(model.EncodeHeader(h), tail...), Note: "lengths"})
 			continue
 		}
